@@ -73,6 +73,9 @@ class CompiledFunction:
     source_map: Dict[int, Tuple[int, int]] = field(
         default_factory=dict
     )  # bytecode_pos -> (line, column)
+    # An arrow function has no `this` of its own: it sees the one of the
+    # function (or program) it is written in
+    is_arrow: bool = False
 
 
 @dataclass
@@ -1161,6 +1164,7 @@ class Compiler:
             free_vars=self._free_vars[:],
             cell_vars=self._cell_vars[:],
             source_map=self.source_map,
+            is_arrow=True,
         )
 
         # Pop outer scope if we pushed it
